@@ -318,6 +318,14 @@ class Envelope(Stream):
                     'dtype': 'int64', 'family': 'corpus-dtype'})
         out.append({'x': [0, 5, 0, 7, 0], 'emode': 'upper', 'method': 'splrep', 'pad': 5, 'parab': 0, 'dtype': 'int32',
                     'col2d': 1, 'family': 'corpus-dtype'})
+        # unsigned storage: troughs are "peaks of the negated signal" - negation must not wrap around
+        # (defect found with these inputs: uint8 [3,1,2,0,2,1,3] lost its trough of value 0; repaired in /repo)
+        uns = [3, 1, 2, 0, 2, 1, 3, 0, 2, 1, 3, 1, 2]
+        for dt in ('uint8', 'uint16'):
+            for emode, method, parab in (('lower', 'splrep', 0), ('lower', 'pchip', 0), ('upper', 'splrep', 0),
+                                         ('combined', 'pchip', 0), ('lower', 'splrep', 1)):
+                out.append({'x': uns, 'emode': emode, 'method': method, 'pad': 2, 'parab': parab, 'dtype': dt,
+                            'family': 'corpus-dtype'})
         f32 = _ext.as_dtype([0.1, 1.3, 0.2, 2.7, -0.4, 1.1, 0.3, 3.9, 1.2, 2.2, 0.6], 'float32')
         for emode, method, parab in (('upper', 'splrep', 0), ('lower', 'pchip', 1), ('combined', 'splrep', 1)):
             out.append({'x': f32, 'emode': emode, 'method': method, 'pad': 2, 'parab': parab, 'dtype': 'float32',
